@@ -1095,6 +1095,12 @@ impl<'g> Consumer<'g> {
         self.stream_live()
     }
 
+    /// The stream value itself (ended or not), if the consumer still has it: a
+    /// caller may keep a finished stream around and drop it much later.
+    pub fn take_stream(&mut self) -> Option<Pin<Box<dyn Stream<Item = Item<'g>> + 'g>>> {
+        self.stream.take()
+    }
+
     fn woken(&self) -> bool {
         self.hook.wakes.load(Ordering::SeqCst) > 0
     }
